@@ -183,8 +183,14 @@ func judge(res *core.CaseResult, m *am.Machine, spec gen.SchemaSpec, tr *rec.Tra
 					sig += "/activated-in-first-pass"
 				}
 			case "R2":
-				if sp[v.State] || sp[v.Other] {
-					sig += "/member-entered-through-second-parseAdd-pass"
+				// v.State Removes v.Other. The resolver filters second-pass
+				// additions against the Remove lists of first-pass survivors,
+				// so only a remover that itself entered through the second
+				// pass is the known defect.
+				if sp[v.State] {
+					sig += "/remover-entered-through-second-parseAdd-pass"
+				} else if sp[v.Other] {
+					sig += "/victim-from-second-pass-remover-from-first"
 				} else {
 					sig += "/both-first-pass"
 				}
